@@ -101,6 +101,7 @@ class Normaliser:
         self.helpers = {}
         self.async_of = {}      # wrapper fn id -> coroutine body id
         self.kept = set()       # helpers with a call site that could not be inlined
+        self.closure_sites = {}  # closure id -> bodies in which a call of it was spliced
 
     # ------------------------------------------------------------------ which functions are helpers
     def find_helpers(self):
@@ -552,9 +553,88 @@ class Normaliser:
                 self.splice_sync(gj, i, hj)
                 self.log.append((h, bid, "call"))
             changed = True
+        if self.splice_closure_calls(b, gj):
+            changed = True
         if changed:
             b._blocks = None
             b.locals = gj["locals"]
+
+    # ------------------------------------------------------------------ calls of closures built in the same body
+    CLOSURE_CALLS = ("std::ops::FnOnce::call_once", "std::ops::FnMut::call_mut", "std::ops::Fn::call")
+
+    def splice_closure_calls(self, b, gj):
+        """`f(args)` where f is a closure constructed in this very body (typically after a closure-taking helper such as
+        `with_state(&lock, |s| ..)` was spliced in): the closure body is spliced at the call.  When the closure value has no
+        other use, the closure disappears as a unit of its own."""
+        from mir import Body
+        from flow import BodyInfo
+        f = self.facts
+        did = False
+        skip = set()
+        for _ in range(40):
+            tmp = Body(gj, "lib", b.types)
+            tmp.id = b.id
+            info = BodyInfo(tmp, f)
+            site = None
+            for blk in tmp.blocks:
+                t = blk.term
+                if blk.cleanup or blk.idx in skip or t.k != "call" or t.callee is None or t.callee.path not in self.CLOSURE_CALLS or len(t.args) != 2:
+                    continue
+                o = info.trace(t.args[0])
+                if o.kind != "agg" or o.path:
+                    continue
+                rv = info.agg_at(o.data)
+                if rv.j.get("ak") != "closure":
+                    continue
+                kid = rv.j["def"]
+                kb = f.body(kid)
+                if kb is None or kb.coroutine or kid == b.id or len([x for x in kb.blocks if not x.cleanup]) > MAX_BLOCKS:
+                    continue
+                # the argument tuple must be built here: (a, b, ..)
+                ta = info.trace(t.args[1])
+                if ta.kind != "agg" or ta.path or info.agg_at(ta.data).j.get("ak") != "tuple":
+                    if kb.arg_count > 1:
+                        skip.add(blk.idx)
+                        continue
+                site = (blk.idx, kid, o.data)
+                break
+            if site is None:
+                break
+            bb, kid, agg_at = site
+            kj = f.body(kid).j
+            t = gj["blocks"][bb]["term"]
+            span = t.get("span")
+            off, boff = self._append_body(gj, kj)
+            stmts = [_assign(off + 1, copy.deepcopy(t["args"][0]), span)]
+            tup = t["args"][1]
+            tpl = tup.get("m") or tup.get("c")
+            for k in range(2, kj["arg_count"] + 1):
+                if tpl is None:
+                    break
+                pl = {"l": tpl["l"], "p": list(tpl.get("p", [])) + [{"f": k - 2, "n": str(k - 2), "o": "tuple"}]}
+                stmts.append(_assign(off + k, {"m": pl}, span))
+            entry = len(gj["blocks"])
+            gj["blocks"].append({"stmts": stmts, "term": _goto(boff, span), "cleanup": False})
+            cont = len(gj["blocks"])
+            dest = t.get("dest")
+            cstmts = []
+            if dest is not None:
+                cstmts.append({"k": "assign", "lhs": copy.deepcopy(dest), "rv": {"k": "use", "op": {"m": {"l": off}}}, "span": span, "exp": None})
+            tgt = t.get("target")
+            gj["blocks"].append({"stmts": cstmts, "term": _goto(tgt, span) if tgt is not None else {"k": "unreachable", "span": span, "exp": None},
+                                 "cleanup": False})
+            for k in range(boff, boff + len(kj["blocks"])):
+                nt = gj["blocks"][k]["term"]
+                if nt["k"] == "return" and not gj["blocks"][k]["cleanup"]:
+                    gj["blocks"][k]["term"] = _goto(cont, nt.get("span"))
+            gj["blocks"][bb]["term"] = _goto(entry, span)
+            gj["blocks"][bb]["term"]["inlined"] = kid
+            if dest is not None and not dest.get("p"):
+                self._thread_returns(gj, off, boff, boff + len(kj["blocks"]), cont, dest["l"])
+            self.log.append((kid, b.id, "closure-call"))
+            self.closure_sites.setdefault(kid, []).append(b.id)
+            did = True
+        return did
 
     # ------------------------------------------------------------------ driver
     def run(self):
@@ -613,22 +693,92 @@ class Normaliser:
                 if b.root in hosts:
                     b.root = new_root
                     b.j["root"] = new_root
+        # closures whose every use was a spliced call: no construction of them is used by anything else
+        for kid, hosts in self.closure_sites.items():
+            if kid in gone or f.body(kid) is None:
+                continue
+            if self._closure_only_called(kid):
+                gone.add(kid)
+                host = hosts[0]
+                hb = f.body(host)
+                new_root = (hb.root or hb.id) if hb is not None else host
+                for b in f.lib_bodies():
+                    if b.id in gone:
+                        continue
+                    if b.parent == kid:
+                        b.parent = host
+                        b.j["parent"] = host
         f.inlined = {}
         for h in gone:
-            f.inlined[h] = f.bodies.pop(h)
+            if h in f.bodies:
+                f.inlined[h] = f.bodies.pop(h)
         f._children = None
         f.norm_log = self.log
         f.norm_removed = removed
         return self
 
 
+def _closure_only_called(self, kid):
+    """every aggregate that builds closure `kid` is, in its body, used by nothing any more: the calls were spliced"""
+    from flow import BodyInfo
+    f = self.facts
+    found = False
+    for b in f.lib_bodies():
+        bi = None
+        for blk in b.blocks:
+            for i, st in enumerate(blk.stmts):
+                if st.k == "assign" and st.rv.k == "agg" and st.rv.j.get("ak") == "closure" and st.rv.j.get("def") == kid:
+                    found = True
+                    if blk.cleanup or not st.lhs.is_local():
+                        return False
+                    bi = bi or BodyInfo(b, f)
+                    # follow moves; the only permitted sink is the parameter assignment of a spliced copy (a `use` into a local
+                    # that is then only projected / dropped)
+                    frontier, seen = [st.lhs.local], set()
+                    while frontier:
+                        l = frontier.pop()
+                        if l in seen:
+                            continue
+                        seen.add(l)
+                        for (ub, ui) in bi.uses_of_local(l):
+                            if ui == -2:
+                                continue
+                            if ui == -1:
+                                t = b.blocks[ub].term
+                                if t.k in ("switch",):
+                                    continue
+                                return False        # still handed to a call
+                            s2 = bi.stmt(ub, ui)
+                            if s2.k == "assign" and s2.lhs.is_local() and s2.rv.k in ("use", "ref") and \
+                                    ((s2.rv.ops and s2.rv.ops[0].place is not None and s2.rv.ops[0].place.local == l and s2.rv.ops[0].place.is_local())
+                                     or (s2.rv.place is not None and s2.rv.place.local == l and s2.rv.place.is_local())):
+                                frontier.append(s2.lhs.local)
+                            # projections of the environment (captured variables) are reads, fine
+    return found
+
+
+Normaliser._closure_only_called = _closure_only_called
+
+
+def spine_of(prog, a):
+    """bodies between an actor's spawned task and its dispatcher: the loop body, async blocks / `serve` methods polled by its
+    select, the dispatcher itself"""
+    out = set()
+    if a.loop is None or a.dispatch is None:
+        return out
+    for bid in prog.cone(a.loop, follow=("call", "closure", "poll")):
+        if bid == a.dispatch or a.dispatch in set(prog.cone(bid, follow=("call", "closure", "poll"))):
+            out.add(bid)
+    return out
+
+
 def boundaries_of(facts):
-    """unit boundaries: the actors' start / loop / dispatch bodies and what those call directly"""
+    """unit boundaries: the actors' start body and spine (loop .. dispatcher) and what those call directly"""
     from model import Program
     prog = Program(facts)
     out = set()
     for a in prog.actors:
-        for bid in (a.start, a.loop, a.dispatch):
+        for bid in {a.start} | spine_of(prog, a):
             if bid is None:
                 continue
             out.add(bid)
@@ -636,13 +786,6 @@ def boundaries_of(facts):
             if b is not None and b.root:
                 out.add(b.root)
             for blk in (b.blocks if b is not None else []):
-                t = blk.term
-                if t.k == "call" and t.callee is not None and (t.callee.local or t.callee.res_local):
-                    out.add(t.callee.target)
-        # the loop's select arms live in closures of the loop body
-        for cid in facts.descendants(a.loop) if a.loop else []:
-            cb = facts.body(cid)
-            for blk in cb.blocks:
                 t = blk.term
                 if t.k == "call" and t.callee is not None and (t.callee.local or t.callee.res_local):
                     out.add(t.callee.target)
